@@ -69,11 +69,11 @@ def check_face_normal_native(p, profile='debug'):
 def check(run):
     funcs, info = engine.load_mir('ibig')
     run.mir_info.append(info)
-    outward_normal(run, funcs)
-    C03.pair_obligations(run, funcs, 'C04')     # every face of a constructed cell exists in the tessellation (needed for closed surfaces)
-    GR.cuboid(run, funcs, 'C04')
-    GR.build_loop(run, funcs, 'C04')
-    GR.face_integral(run, funcs, 'C04')
+    run.guard(outward_normal, funcs)
+    run.guard(C03.pair_obligations, funcs, 'C04')     # every face of a constructed cell exists in the tessellation (needed for closed surfaces)
+    run.guard(GR.cuboid, funcs, 'C04')
+    run.guard(GR.build_loop, funcs, 'C04')
+    run.guard(GR.face_integral, funcs, 'C04')
     run.assume('closure of the cell surface and the divergence identity need the whole float pipeline: outside')
     return run.finish(LEVEL, EXPLANATION, trusted=['rustc -Zunpretty=mir', 'z3 5.1.0 / 4.8.12, cvc5 1.0.3', 'glam / std models of mirsym'])
 
